@@ -113,10 +113,14 @@ def get_negated_comparison_suffix(op: str):
 
 
 def _e(value: int | float | str) -> float:
-    from .types import compute_hash
+    from .types import compute_hash, compute_string
 
     if isinstance(value, str) and value.startswith('HASH("'):
         value = compute_hash(value[6:-2], OutputMode.NUMERIC)
+        return value
+
+    if isinstance(value, str) and value.startswith('STR("'):
+        value = compute_string(value[5:-2], OutputMode.NUMERIC)
         return value
 
     if isinstance(value, str):
@@ -126,10 +130,10 @@ def _e(value: int | float | str) -> float:
 
 
 def _c(value):
-    """Operand of a folded ==/!=: a HASH("...") spelling counts as its number
-    (whether a hash is spelled symbolically depends on the output mode), any
-    other value as it is."""
-    if isinstance(value, str) and value.startswith('HASH("'):
+    """Operand of a folded ==/!=: a HASH("...") or STR("...") spelling counts
+    as its number (whether it is spelled symbolically depends on the output
+    mode), any other value as it is."""
+    if isinstance(value, str) and value.startswith(('HASH("', 'STR("')):
         return _e(value)
     return value
 
